@@ -25,6 +25,10 @@ def load_known():
         return None
 
 
+class _PartialReturn(Exception):
+    pass
+
+
 def simple_shape(fn):
     """body statements of an inlinable helper, with guard-clause returns restructured into if/else nesting so that the
     only `return` left is the last statement; None when the helper is too complex"""
@@ -85,14 +89,18 @@ def simple_shape(fn):
                     new_if = ast.copy_location(ast.If(test=st.test, body=(b + tail) or [ast.Pass()], orelse=o), st)
                     out.append(new_if)
                     return out, tret
-                out.append(ast.copy_location(ast.If(test=st.test, body=b or [ast.Pass()], orelse=o), st))
-                continue
+                # neither branch always returns, yet a return sits somewhere inside (a guard nested one level down): the
+                # statements after this `if` must not run on those paths - re-nesting cannot express that without duplicating
+                # code, so the jump form (InlineBlock / InlineExit) is used for the whole helper
+                raise _PartialReturn()
             out.append(st)
         return out, False
     try:
         nb, always = norm([A.clone(x) for x in body])
     except RecursionError:
         return None
+    except _PartialReturn:
+        return wrapped_shape(fn, body, rets)
     if valued:
         if not always:
             # falling off the end returns None
